@@ -117,13 +117,33 @@ class heap(object):
         return ptr_page["size"]
 
 
+def _to_sbpath(elts):
+    """Join path elements below the sandbox base directory. '.' and '..' are
+    resolved here and cannot climb above the base; the result is refused if
+    a symbolic link of the sandbox makes the host leave the base directory.
+
+    """
+    path = []
+    for elt in elts:
+        if elt == '..':
+            if path:
+                path.pop()
+        elif elt and elt != '.':
+            path.append(elt)
+    sb_path = os.path.join(BASE_SB_PATH, *path)
+    base = os.path.realpath(BASE_SB_PATH)
+    real = os.path.realpath(sb_path)
+    if real != base and not real.startswith(base + os.sep):
+        raise ValueError("%r is outside of the sandbox" % sb_path)
+    return sb_path
+
+
 def windows_to_sbpath(path):
     """Convert a Windows path to a valid filename within the sandbox
     base directory.
 
     """
-    path = [elt for elt in path.lower().replace('/', '_').split('\\') if elt]
-    return os.path.join(BASE_SB_PATH, *path)
+    return _to_sbpath(path.lower().replace('/', '_').split('\\'))
 
 
 def unix_to_sbpath(path):
@@ -131,8 +151,7 @@ def unix_to_sbpath(path):
     base directory.
 
     """
-    path = [elt for elt in path.split('/') if elt]
-    return os.path.join(BASE_SB_PATH, *path)
+    return _to_sbpath(path.split('/'))
 
 def get_fmt_args(fmt, cur_arg, get_str, get_arg_n):
     idx = 0
